@@ -21,6 +21,7 @@ import (
 	"context"
 	"encoding/json"
 	"fmt"
+	"io/fs"
 	"path"
 	"strings"
 	"testing"
@@ -81,6 +82,126 @@ type Case struct {
 	Long  *Long  `json:"long,omitempty"`
 	FillK string `json:"fill_k,omitempty"` // Fill data value of k; "" = not in Fill
 	Via   string `json:"via,omitempty"`    // "" = Load(p).Fill(d).Render ; "renderfile" = Fill(d).RenderFile(p)
+
+	// The filesystem the engine is given. The file set above is the UNION the engine must see;
+	// how it is physically stored must not matter.
+	FS      string   `json:"fs,omitempty"`      // "" = memfs (Open+Stat+ReadDir); "openonly" = every fs.FS is wrapped so that only Open is available
+	Overlay *Overlay `json:"overlay,omitempty"` // nil = one filesystem; otherwise vuego.NewOverlayFS(layer0, layer1...)
+}
+
+// Overlay distributes the file set over the layers of a vuego.OverlayFS (upper first). The
+// overlay serves every path from the first layer that has it (C18), so the reference walker runs
+// on the union and never looks at this description.
+type Overlay struct {
+	Layers int            `json:"layers"`           // number of layers including nil ones
+	Nil    []int          `json:"nil,omitempty"`    // indices of nil layers (at least one layer stays non-nil)
+	At     map[string]int `json:"at,omitempty"`     // path -> layer index
+	Spread bool           `json:"spread,omitempty"` // layout files without an At entry go round-robin over the non-nil layers
+	Rest   int            `json:"rest,omitempty"`   // otherwise they go to this layer; the page defaults to the first non-nil layer
+	// Stale: paths that additionally exist, with different content (marker "stale", layout zz), in the
+	// lowest non-nil layer below the one holding the real file: the upper copy must win.
+	Stale []string `json:"stale,omitempty"`
+}
+
+// layering resolves an Overlay description: the non-nil layer indices, and for every file of the
+// case (page included, in expand order) the layer that holds it. Out-of-range or nil targets fall
+// back to the first non-nil layer, so every description is valid.
+func layering(c Case) (nonNil []int, at map[string]int, total int) {
+	o := c.Overlay
+	at = map[string]int{}
+	if o == nil {
+		return []int{0}, at, 1
+	}
+	total = o.Layers
+	if total < 1 {
+		total = 1
+	}
+	if total > 6 {
+		total = 6
+	}
+	isNil := map[int]bool{}
+	for _, i := range o.Nil {
+		isNil[i] = true
+	}
+	for i := 0; i < total; i++ {
+		if !isNil[i] {
+			nonNil = append(nonNil, i)
+		}
+	}
+	if len(nonNil) == 0 {
+		nonNil = []int{total - 1}
+		isNil[total-1] = false
+	}
+	paths := []string{c.Page.Path}
+	for _, f := range expand(c) {
+		paths = append(paths, f.Path)
+	}
+	for n, p := range paths {
+		l, ok := o.At[p]
+		switch {
+		case ok && l >= 0 && l < total && !isNil[l]:
+		case o.Spread && n > 0:
+			l = nonNil[n%len(nonNil)]
+		case n > 0 && o.Rest >= 0 && o.Rest < total && !isNil[o.Rest]:
+			l = o.Rest
+		default:
+			l = nonNil[0]
+		}
+		at[p] = l
+	}
+	return nonNil, at, total
+}
+
+// openOnly hides every optional interface of a filesystem (Stat, ReadDir, ReadFile...).
+type openOnly struct{ f fs.FS }
+
+func (o openOnly) Open(name string) (fs.File, error) { return o.f.Open(name) }
+
+const staleSource = `---
+layout: zz
+k: k-stale
+---
+<div data-m="stale"><div v-html="content"></div></div>
+`
+
+// mount builds the engine's filesystem from the description.
+func mount(c Case) (fs.FS, []*memfs.FS) {
+	nonNil, at, total := layering(c)
+	layers := make([]*memfs.FS, total)
+	for _, i := range nonNil {
+		layers[i] = memfs.New()
+	}
+	for _, f := range expand(c) {
+		layers[at[f.Path]].Write(f.Path, source(f, false), memfsTime)
+	}
+	layers[at[c.Page.Path]].Write(c.Page.Path, source(c.Page, true), memfsTime)
+	if c.Overlay != nil {
+		for _, p := range c.Overlay.Stale {
+			l, ok := at[p]
+			if low := nonNil[len(nonNil)-1]; ok && low > l {
+				layers[low].Write(p, staleSource, memfsTime)
+			}
+		}
+	}
+	var all []*memfs.FS
+	stack := make([]fs.FS, total)
+	for i, m := range layers {
+		if m == nil {
+			continue // stays a nil fs.FS in the overlay
+		}
+		m.SetBudget(openBudget)
+		all = append(all, m)
+		if c.FS == "openonly" {
+			stack[i] = openOnly{m}
+		} else {
+			stack[i] = m
+		}
+	}
+	if c.Overlay == nil {
+		return stack[0], all
+	}
+	var ov fs.FS = vuego.NewOverlayFS(stack[0], stack[1:]...)
+	return ov, all
 }
 
 func markerID(p string) string { return strings.TrimSuffix(p, ".vuego") }
@@ -152,6 +273,9 @@ type plan struct {
 	// default layout is due for the first template only, so the chain ends there with the page
 	// file as outermost layout; it has no content holder, hence the document is the page alone.
 	pageReused bool
+	// probed: files whose mere existence decided a step (layouts/base.vuego for the default rule,
+	// a file found next to the naming file) - the engine must find them wherever they are stored
+	probed []string
 }
 
 // doc returns the files whose markers make up the expected document, innermost first.
@@ -180,6 +304,7 @@ func walk(c Case) plan {
 			return pl // no layout named, no default: the page alone
 		}
 		pl.defaultDue = true
+		pl.probed = append(pl.probed, basePath)
 		next = basePath
 	}
 	for {
@@ -195,9 +320,11 @@ func walk(c Case) plan {
 					return pl
 				}
 				pl.explicit = true
+				pl.probed = append(pl.probed, p)
 				next = p
 			case has(path.Join(dir, name+".vuego")):
 				next = path.Join(dir, name+".vuego")
+				pl.probed = append(pl.probed, next)
 				if next != lay && has(lay) {
 					pl.ambiguous = true
 				}
@@ -294,12 +421,7 @@ type result struct {
 }
 
 func execute(c Case) (res result) {
-	m := memfs.New()
-	for _, f := range expand(c) {
-		m.Write(f.Path, source(f, false), memfsTime)
-	}
-	m.Write(c.Page.Path, source(c.Page, true), memfsTime)
-	m.SetBudget(openBudget)
+	m, layers := mount(c)
 	data := map[string]any{"fd": fdVal}
 	if c.FillK != "" {
 		data["k"] = c.FillK
@@ -324,7 +446,9 @@ func execute(c Case) (res result) {
 		}
 	}()
 	res.out = w.Got
-	res.runaway = m.Runaway()
+	for _, l := range layers {
+		res.runaway = res.runaway || l.Runaway()
+	}
 	return res
 }
 
@@ -642,6 +766,50 @@ func classify(c Case) (bool, []string) {
 			cls = append(cls, "k-nowhere")
 		}
 	}
+	switch {
+	case c.Overlay == nil && c.FS == "openonly":
+		cls = append(cls, "fs=single,open-only")
+	case c.Overlay == nil:
+		cls = append(cls, "fs=single")
+	default:
+		nonNil, at, total := layering(c)
+		cls = append(cls, fmt.Sprintf("fs=overlay(%d non-nil layers)", len(nonNil)))
+		if c.FS == "openonly" {
+			cls = append(cls, "overlay:open-only-layers")
+		}
+		if len(nonNil) < total {
+			cls = append(cls, "overlay:nil-layer")
+		}
+		baseLow, relLow := false, false
+		for n, p := range pl.probed {
+			if at[p] != nonNil[0] {
+				if n == 0 && pl.defaultDue {
+					baseLow = true
+				} else {
+					relLow = true
+				}
+			}
+		}
+		if baseLow {
+			cls = append(cls, "overlay:default-base-only-in-lower-layer")
+		}
+		if relLow {
+			cls = append(cls, "overlay:relative-target-only-in-lower-layer")
+		}
+		lower := false
+		for i := 1; i < len(pl.chain); i++ {
+			lower = lower || at[pl.chain[i].Path] != nonNil[0]
+		}
+		if lower {
+			cls = append(cls, "overlay:chain-uses-lower-layer")
+		}
+		for _, p := range c.Overlay.Stale {
+			if l, ok := at[p]; ok && nonNil[len(nonNil)-1] > l {
+				cls = append(cls, "overlay:stale-copy-shadowed")
+				break
+			}
+		}
+	}
 	if c.Via == "renderfile" {
 		cls = append(cls, "via=RenderFile")
 	} else {
@@ -882,6 +1050,39 @@ func genCase(t *rapid.T) Case {
 	if rapid.Bool().Draw(t, "via") {
 		c.Via = "renderfile"
 	}
+	// storage
+	switch rapid.IntRange(0, 5).Draw(t, "fs") {
+	case 0, 1:
+	case 2:
+		c.FS = "openonly"
+	default:
+		o := &Overlay{Layers: rapid.IntRange(2, 4).Draw(t, "ov.layers"), At: map[string]int{}}
+		keep := rapid.IntRange(0, o.Layers-1).Draw(t, "ov.keep") // this layer is never nil
+		var live []int
+		for i := 0; i < o.Layers; i++ {
+			if i != keep && rapid.IntRange(0, 3).Draw(t, fmt.Sprintf("ov.nil%d", i)) == 0 {
+				o.Nil = append(o.Nil, i)
+			} else {
+				live = append(live, i)
+			}
+		}
+		// the page mostly above
+		if rapid.IntRange(0, 3).Draw(t, "ov.page") == 0 {
+			o.At[c.Page.Path] = rapid.SampledFrom(live).Draw(t, "ov.pageat")
+		}
+		for _, f := range c.Files {
+			o.At[f.Path] = rapid.SampledFrom(live).Draw(t, "ov.at:"+f.Path)
+			if rapid.IntRange(0, 2).Draw(t, "ov.stale:"+f.Path) == 0 {
+				o.Stale = append(o.Stale, f.Path)
+			}
+		}
+		o.Spread = rapid.Bool().Draw(t, "ov.spread") // only matters for a synthetic chain
+		o.Rest = rapid.SampledFrom(live).Draw(t, "ov.rest")
+		if rapid.IntRange(0, 3).Draw(t, "ov.openonly") == 0 {
+			c.FS = "openonly"
+		}
+		c.Overlay = o
+	}
 	return c
 }
 
@@ -917,6 +1118,89 @@ func (s *stage) yield(c Case) bool {
 	return true
 }
 
+// rotateFS varies how the file set is stored as a function of the running index: a single
+// filesystem (with and without the optional Stat/ReadDir interfaces) or a vuego.OverlayFS with
+// the page in the upper layer and the layouts in lower layers, spread over the layers, split by a
+// bit pattern, with a nil layer in between, with stale copies shadowed by the upper layer.
+func rotateFS(c *Case, i int) {
+	j := i / 7
+	switch i % 7 {
+	case 0, 1:
+	case 2:
+		c.FS = "openonly"
+	case 3: // page above, every layout below
+		c.Overlay = &Overlay{Layers: 2, Rest: 1}
+	case 4: // three layers, the middle one nil, layouts round-robin, upper copies shadow stale ones
+		c.Overlay = &Overlay{Layers: 3, Nil: []int{1}, Spread: true}
+		for _, f := range c.Files {
+			c.Overlay.Stale = append(c.Overlay.Stale, f.Path)
+		}
+	case 5, 6: // explicit split of the (few) described files by the bits of j
+		o := &Overlay{Layers: 2 + j%2, At: map[string]int{}, Rest: 1}
+		for n, f := range c.Files {
+			o.At[f.Path] = (j >> (1 + n)) % o.Layers
+			if o.At[f.Path] == 0 && (j>>n)&1 == 1 {
+				o.Stale = append(o.Stale, f.Path)
+			}
+		}
+		if j%5 == 4 { // insert a nil layer right below the upper one
+			o.Layers++
+			o.Nil = []int{1}
+			o.Rest++
+			for k, v := range o.At {
+				if v >= 1 {
+					o.At[k] = v + 1
+				}
+			}
+		}
+		if i%7 == 6 {
+			c.FS = "openonly"
+		}
+		c.Overlay = o
+	}
+}
+
+// overlaySplits: every graph over {layouts/a, pages/a, layouts/base} (names none / a / base) x
+// page {none, a, base} x every assignment of the present layout files to the upper or the lower
+// layer of a two-layer overlay (page in the upper layer); nil layer in between, stale copies,
+// open-only layers and the entry point rotate with the index.
+func overlaySplits(s *stage) {
+	names := []string{"", "a", "base"}
+	enumGraphs([]string{"layouts/a.vuego", "pages/a.vuego", basePath}, names, names, func(_ int, c Case) bool {
+		for m := 0; m < 1<<len(c.Files); m++ {
+			i := s.n
+			d := c
+			d.Files = append([]File(nil), c.Files...)
+			o := &Overlay{Layers: 2, At: map[string]int{}}
+			for n, f := range d.Files {
+				o.At[f.Path] = (m >> n) & 1
+				if o.At[f.Path] == 0 && i%3 == 0 {
+					o.Stale = append(o.Stale, f.Path)
+				}
+			}
+			if i%4 == 3 { // upper, nil, lower
+				o.Layers = 3
+				o.Nil = []int{1}
+				for k, v := range o.At {
+					o.At[k] = v * 2
+				}
+			}
+			d.Overlay = o
+			if i%5 == 2 {
+				d.FS = "openonly"
+			}
+			if i%2 == 1 {
+				d.Via = "renderfile"
+			}
+			applyKMask(&d, (i*7+i/3)%(4<<len(d.Files)))
+			if !s.yield(d) {
+				return false
+			}
+		}
+		return true
+	})
+}
+
 // longChains: synthetic chains around the maximum, in layouts/ and next to the page, ending,
 // closing into a cycle, or running into a missing file; the page naming the head or reaching
 // it through the default layout.
@@ -940,6 +1224,7 @@ func longChains(s *stage) {
 					if s.n%2 == 1 {
 						c.Via = "renderfile"
 					}
+					rotateFS(&c, s.n)
 					if !s.yield(c) {
 						return
 					}
@@ -965,6 +1250,7 @@ func limitZone(s *stage) {
 				if n%2 == 0 {
 					c.FillK = kFill
 				}
+				rotateFS(&c, s.n/2) // both entry points see the same storage
 				if !s.yield(c) {
 					return
 				}
@@ -997,6 +1283,7 @@ func shapes(s *stage) {
 					if i%2 == 1 {
 						c.Via = "renderfile"
 					}
+					rotateFS(&c, i)
 					if !s.yield(c) {
 						return
 					}
@@ -1029,6 +1316,7 @@ func allGraphs(s *stage, slots []string) {
 		if (i/3)%2 == 1 {
 			c.Via = "renderfile"
 		}
+		rotateFS(&c, i)
 		return s.yield(c)
 	})
 }
@@ -1078,6 +1366,7 @@ func TestProp(t *testing.T) {
 	}{
 		{"long", "synthetic chains of 6..150 layouts", longChains},
 		{"zone", "default-applied vs explicitly named base over chains of 93..106 templates", limitZone},
+		{"overlay", "all layout graphs over 3 files x 3 page options x every upper/lower split of the layout files", overlaySplits},
 		{"shape", "chain shapes: lengths 0..5 x placements x endings x default/named", shapes},
 		{"enum", fmt.Sprintf("all layout graphs over %d layout files x 6 page options", len(slots)), func(s *stage) { allGraphs(s, slots) }},
 		{"enumk", "all layout graphs over 3 files x 3 page options x all k-source subsets x 2 entry points", allGraphsK},
